@@ -96,6 +96,9 @@ type MRec struct {
 type MState struct {
 	WM   types.Height // highest height h such that a prune(h) is part of this state
 	Ents map[types.Height][]string
+
+	canon    string // cache of Canon(); a state is not modified once Canon has been called
+	hasCanon bool
 }
 
 func NewMState() *MState { return &MState{Ents: map[types.Height][]string{}} }
@@ -142,6 +145,14 @@ func (s *MState) heights() []types.Height {
 
 // Canon is the observable content (the watermark itself is only observable through absence).
 func (s *MState) Canon() string {
+	if s.hasCanon {
+		return s.canon
+	}
+	s.canon, s.hasCanon = s.buildCanon(), true
+	return s.canon
+}
+
+func (s *MState) buildCanon() string {
 	var sb strings.Builder
 	for _, h := range s.heights() {
 		if len(s.Ents[h]) == 0 {
